@@ -41,20 +41,8 @@ func VerifLooksLike(which string, info caskettls.ClientHelloInfo) bool {
 // VerifGetVersion is getVersion.
 func VerifGetVersion(ua, name string) float64 { return getVersion(ua, name) }
 
-// VerifHelloListener is a tlsHelloListener without an underlying listener.
+// VerifHelloListener gives access to the helloInfos of a tlsHelloListener (see VerifTLSHelloListener).
 type VerifHelloListener struct{ l *tlsHelloListener }
-
-func VerifNewHelloListener() *VerifHelloListener {
-	return &VerifHelloListener{l: newTLSListener(nil, nil)}
-}
-
-// Wrap does what tlsHelloListener.Accept does with an accepted connection,
-// minus tls.Server: the caller plays the part of crypto/tls and calls Read.
-func (v *VerifHelloListener) Wrap(conn net.Conn) net.Conn {
-	buf := bufpool.Get().(*bytes.Buffer)
-	buf.Reset()
-	return &clientHelloConn{Conn: conn, listener: v.l, buf: buf}
-}
 
 // Recorded returns the helloInfos entry for a remote address.
 func (v *VerifHelloListener) Recorded(addr string) (caskettls.ClientHelloInfo, bool) {
@@ -75,4 +63,17 @@ func (v *VerifHelloListener) Handler(next http.Handler) http.Handler {
 func VerifTLSHelloListener(ln net.Listener, config *tls.Config) (net.Listener, *VerifHelloListener) {
 	l := newTLSListener(ln, config)
 	return l, &VerifHelloListener{l: l}
+}
+
+// VerifHelloBuf returns the ClientHello capture buffer of a connection handed out by
+// tlsHelloListener.Accept (nil for anything else).  The harness only compares the pointers of
+// successive connections, to report whether bufpool really handed the same buffer out again.
+func VerifHelloBuf(c net.Conn) *bytes.Buffer {
+	if tc, ok := c.(*tls.Conn); ok {
+		c = tc.NetConn()
+	}
+	if hc, ok := c.(*clientHelloConn); ok {
+		return hc.buf
+	}
+	return nil
 }
